@@ -209,8 +209,8 @@ def same_or_adjacent(a: ast.AST, b: ast.AST) -> bool:
 # ------------------------------------------------------------------------ R2
 
 
-def rule_r2(ctx, pl: Pipeline) -> None:
-    ctx.rule("C01-R2", "validator verdict is computed from the current text of its own reaction column", 5)
+def rule_r2(ctx, pl: Pipeline, rule_id: str = "C01-R2") -> None:
+    ctx.rule(rule_id, "validator verdict is computed from the current text of its own reaction column", 5)
     prog = ctx.prog
     f = prog.func(VALIDATOR_CHECK)
     cfg = CFG(f.node)
@@ -244,9 +244,9 @@ def rule_r2(ctx, pl: Pipeline) -> None:
 
     rc_attrs = param_attrs(f.cls, "reaction_col")
     ok1 = ok1 and isinstance(a_col, ast.Attribute) and a_col.attr in rc_attrs
-    ctx.instance("C01-R2", "refresh of reactants/products dominates decomposition", f.loc(upd_call), ok=ok1)
+    ctx.instance(rule_id, "refresh of reactants/products dominates decomposition", f.loc(upd_call), ok=ok1)
     if not ok1:
-        ctx.finding("C01-R2", cname + ":refresh", f.loc(upd_call), "update_reactants_and_products(rows, self.reaction_col) does not dominate data_decomposer() - the verdict may be about stale text")
+        ctx.finding(rule_id, cname + ":refresh", f.loc(upd_call), "update_reactants_and_products(rows, self.reaction_col) does not dominate data_decomposer() - the verdict may be about stale text")
     # (ii) decomposer is fed the rows and the two refreshed fields
     denv = Env(func=upd)
     defaults = upd.param_defaults()
@@ -266,9 +266,9 @@ def rule_r2(ctx, pl: Pipeline) -> None:
     r_w = texts(ctx.ev.eval(r_given, Env(func=f))) if r_given is not None else upd_def[0]
     p_w = texts(ctx.ev.eval(p_given, Env(func=f))) if p_given is not None else upd_def[1]
     ok2 = isinstance(d_data, ast.Name) and d_data.id == rows and rc == r_w and pc == p_w and len(rc) == 1 and len(pc) == 1 and rc != pc
-    ctx.instance("C01-R2", "decomposer reads rows[%s]/rows[%s] refreshed as %s/%s" % (sorted(rc), sorted(pc), sorted(r_w), sorted(p_w)), f.loc(dec_ctor), ok=ok2)
+    ctx.instance(rule_id, "decomposer reads rows[%s]/rows[%s] refreshed as %s/%s" % (sorted(rc), sorted(pc), sorted(r_w), sorted(p_w)), f.loc(dec_ctor), ok=ok2)
     if not ok2:
-        ctx.finding("C01-R2", cname + ":decomposer-fields", f.loc(dec_ctor), "decomposer does not read the side fields that the refresh writes (reads %s/%s, refresh writes %s/%s)" % (sorted(rc), sorted(pc), sorted(r_w), sorted(p_w)))
+        ctx.finding(rule_id, cname + ":decomposer-fields", f.loc(dec_ctor), "decomposer does not read the side fields that the refresh writes (reads %s/%s, refresh writes %s/%s)" % (sorted(rc), sorted(pc), sorted(r_w), sorted(p_w)))
     # (iii) comparator gets the decomposer's two results, reactants first
     rp = prog.func(RUN_PARALLEL)
     a_r = arg_of(cmp_call, rp, "reactants", skip_self=True)
@@ -279,34 +279,34 @@ def rule_r2(ctx, pl: Pipeline) -> None:
         n0, n1 = dd_stmt.targets[0].elts
         ok3 = isinstance(a_r, ast.Name) and isinstance(a_p, ast.Name) and isinstance(n0, ast.Name) and isinstance(n1, ast.Name) and a_r.id == n0.id and a_p.id == n1.id
         ok3 = ok3 and cfg.dominates(cfg.node_of(dd_call), cfg.node_of(cmp_call))
-    ctx.instance("C01-R2", "comparator receives (reactant compositions, product compositions) of this decomposition", f.loc(cmp_call), ok=ok3)
+    ctx.instance(rule_id, "comparator receives (reactant compositions, product compositions) of this decomposition", f.loc(cmp_call), ok=ok3)
     if not ok3:
-        ctx.finding("C01-R2", cname + ":comparator-args", f.loc(cmp_call), "run_parallel is not fed the two results of data_decomposer() in order")
+        ctx.finding(rule_id, cname + ":comparator-args", f.loc(cmp_call), "run_parallel is not fed the two results of data_decomposer() in order")
     # (iv) carbon checker on the same rows and column
     cinit = prog.lookup_method(prog.cls(CARBON_CLS), "__init__")
     c_rows = arg_of(carbon_ctor, cinit, cinit.params[1], skip_self=True)
     c_col = arg_of(carbon_ctor, cinit, "rsmi_col", skip_self=True)
     c_atom = arg_of(carbon_ctor, cinit, "atom_type", skip_self=True) or cinit.param_defaults().get("atom_type")
     ok4 = isinstance(c_rows, ast.Name) and c_rows.id == rows and isinstance(c_col, ast.Attribute) and c_col.attr in rc_attrs and const_str(c_atom) == "C"
-    ctx.instance("C01-R2", "carbon check runs on the same rows/column for atom type C", f.loc(carbon_ctor), ok=ok4)
+    ctx.instance(rule_id, "carbon check runs on the same rows/column for atom type C", f.loc(carbon_ctor), ok=ok4)
     if not ok4:
-        ctx.finding("C01-R2", cname + ":carbon-check-column", f.loc(carbon_ctor), "CheckCarbonBalance is not constructed with (rows, rsmi_col=self.reaction_col, atom_type='C')")
+        ctx.finding(rule_id, cname + ":carbon-check-column", f.loc(carbon_ctor), "CheckCarbonBalance is not constructed with (rows, rsmi_col=self.reaction_col, atom_type='C')")
     # (v) every validator of the Balancer is bound to the returned reaction column
     for attr, inst in sorted(ctx.balancer.attr_inst.items()):
         if inst.cls.qualname != "synrbl.postprocess.Validator":
             continue
         v = inst.get("reaction_col")
         ok5 = v == frozenset({pl.reaction_col})
-        ctx.instance("C01-R2", "Balancer.%s validates column %s" % (attr, sorted(map(str, texts(v)))), "synrbl/balancing.py", ok=ok5)
+        ctx.instance(rule_id, "Balancer.%s validates column %s" % (attr, sorted(map(str, texts(v)))), "synrbl/balancing.py", ok=ok5)
         if not ok5:
-            ctx.finding("C01-R2", "Balancer.%s:reaction_col" % attr, "synrbl/balancing.py:1", "validator is bound to column %r, not to the reaction column that is returned (%r)" % (v, pl.reaction_col))
+            ctx.finding(rule_id, "Balancer.%s:reaction_col" % attr, "synrbl/balancing.py:1", "validator is bound to column %r, not to the reaction column that is returned (%r)" % (v, pl.reaction_col))
     # the result returned by rebalance is the reaction column
     rb = prog.func("synrbl.balancing.Balancer.rebalance")
     cols = ctx.balancer.get("columns")
     okc = any(x.kind == "list" and pl.reaction_col in x.value for x in cols)
-    ctx.instance("C01-R2", "Balancer.columns contains the reaction column", rb.loc(), ok=okc)
+    ctx.instance(rule_id, "Balancer.columns contains the reaction column", rb.loc(), ok=okc)
     if not okc:
-        ctx.finding("C01-R2", "Balancer.columns:reaction_col", rb.loc(), "the validated reaction column is not among the returned columns")
+        ctx.finding(rule_id, "Balancer.columns:reaction_col", rb.loc(), "the validated reaction column is not among the returned columns")
 
 
 # ------------------------------------------------------------------------ R3
